@@ -1352,3 +1352,25 @@ Proof.
   destruct (routing_running c p s i Hrun Herr) as (H1 & H2 & H3 & _). fold xe in H1, H3. fold s' in H1, H2, H3.
   rewrite H1, H2, H3, Hfb, Hfba. unfold route_bias, bias_sees. destruct b; cbn [fst snd n0 Rops]; repeat split; unfold Rdiv; ring.
 Qed.
+
+(* ================================================================== round 4 *)
+(* a configuration that passes the input checks gives a well-defined integrator: positive force constant and mass, non-negative friction *)
+Lemma valid_config_params c :
+  0 < c_kB c -> valid_config Rops c = true ->
+  let p := init_params Rops PI c in
+  0 < p_k p /\ 0 < p_m p /\ 0 <= p_gamma p /\ (p_langevin p = true <-> c_damping c <> 0) /\
+  2 * PI * sqrt (p_m p / p_k p) = c_tau c /\ sqrt (c_kB c * c_temp c / p_k p) = c_tol c.
+Proof.
+  intros HkB Hv p. unfold valid_config in Hv. cbn [nltb n0 Rops] in Hv.
+  apply andb_prop in Hv. destruct Hv as [Hv H4]. apply andb_prop in Hv. destruct Hv as [Hv H3]. apply andb_prop in Hv. destruct Hv as [H1 H2].
+  apply Rltb_true in H1. apply Rltb_true in H2. apply Rltb_true in H3.
+  apply negb_true_iff in H4. apply Rltb_false in H4.
+  assert (HkT : 0 < c_kB c * c_temp c) by (apply Rmult_lt_0_compat; assumption).
+  destruct (params_documented c HkT H2 H3) as (_ & _ & Hk & Hm & Hper & Hfl). fold p in Hk, Hm, Hper, Hfl.
+  split; [exact Hk | ]. split; [exact Hm | ].
+  destruct (Req_dec (c_damping c) 0) as [Z | NZ].
+  - destruct (params_no_langevin c Z) as (Hl & Hg & _). fold p in Hl, Hg. rewrite Hg, Hl.
+    split; [lra | ]. split; [split; [discriminate | intros H; contradiction] | split; assumption].
+  - destruct (params_langevin c NZ) as (Hl & Hg & _). fold p in Hl, Hg. rewrite Hg, Hl.
+    split; [lra | ]. split; [split; [intros _; exact NZ | reflexivity] | split; assumption].
+Qed.
